@@ -162,6 +162,24 @@ class World:
                                   "threading.RLock": lambda: Obj(None, {}, "lock"), "networkx.MultiDiGraph": lambda: MG(self.interp)})
         self.g = MG(self.interp)
         self.plan = Obj(self.C["Plan"], {"graph": self.g, "_scope": (), "_scope_lock": Obj(None, {}, "lock")}, name="plan")
+        # whatever further state the constructor sets up (caches, counters ...): take it from interpreting Plan.__init__
+        init = self.C["Plan"].methods.get("__init__")
+        if init is not None:
+            try:
+                probe = Obj(self.C["Plan"], {}, name="plan")
+                ext2 = dict(self.interp.ext)
+                ext2.setdefault("threading.RLock", lambda: Obj(None, {}, "lock"))
+                ext2.setdefault("threading.Lock", lambda: Obj(None, {}, "lock"))
+                ext2.setdefault("weakref.WeakKeyDictionary", lambda *a: {})
+                ext2.setdefault("weakref.WeakValueDictionary", lambda *a: {})
+                it2 = Interp(m, stubs=dict(self.interp.stubs), ext=ext2)
+                it2.stubs["Graph"] = Stub("Graph", lambda *a, **k: MG(self.interp))
+                it2.call_func(init, None, [], {}, bound_self=probe)
+                for k_, v_ in probe.attrs.items():
+                    if k_ not in self.plan.attrs:
+                        self.plan.attrs[k_] = v_
+            except (AbsRaise, AnalysisError):
+                pass
         self.names = {}
         self.stores = {}
         self.mapping = {}
